@@ -14,7 +14,7 @@ from fractions import Fraction
 import z3
 
 from . import poly
-from .paths import cone
+from .paths import cone, vars_of
 
 OLD_Z3 = "/usr/bin/z3"
 
@@ -242,7 +242,20 @@ def prove(goal, assumptions, timeout_s=10, old_timeout_s=20, eq=None, rules=None
         return Result("proved", "simplify", time.time() - t0)
     ng = z3.Not(goal)
     base = cone([ng], assumptions) if use_cone else list(assumptions)
+    if use_cone and not vars_of(ng):
+        base = list(assumptions)  # a constant goal: the claim is about the feasibility of the whole path
+    dropped = len(base) < len(assumptions)
     info = {}
+
+    def complete(model, route):
+        """a model found under the cone of influence ignores the dropped assumptions: re-solve with all of them so
+        that the reported counterexample satisfies every assumption (or the path turns out to be infeasible)"""
+        if not dropped:
+            return Result("refuted", route, time.time() - t0, model=model, info=info)
+        st2, m2 = solve_new(list(assumptions) + [ng], max(2.0, timeout_s))
+        if st2 == "unsat":
+            return Result("proved", route + "+infeasible-path", time.time() - t0, info=info)
+        return Result("refuted", route, time.time() - t0, model=m2 if st2 == "sat" else model, info=info)
     if eq is not None:
         base = base + int_combo_hints(eq[0], eq[1])
 
@@ -288,7 +301,7 @@ def prove(goal, assumptions, timeout_s=10, old_timeout_s=20, eq=None, rules=None
         if st == "unsat":
             return Result("proved", route, time.time() - t0, info=info)
         if st == "sat":
-            return Result("refuted", route, time.time() - t0, model=model, info=info)
+            return complete(model, route)
     return Result("unknown", "none", time.time() - t0, info=info)
 
 
